@@ -21,6 +21,9 @@ type conflictCase struct {
 	J     int    `json:"j"`
 	Fam   string `json:"fam"`
 	Prios []int  `json:"prios"`
+	// ownerLabels only: further pods of the owner agreeing with the non-deviating pod; whether the deviating pod comes first
+	Sib      int  `json:"sib"`
+	DevFirst bool `json:"devFirst"`
 }
 
 type conflictRun struct {
@@ -199,8 +202,16 @@ func materialise(c conflictCase, withConflict bool) (docs []string, names []stri
 			extra[c.I] = append(extra[c.I], banpDoc("other"))
 			names = []string{}
 		case "ownerLabels":
-			extra[c.I] = append(extra[c.I], ownedPodDoc("own-aaa", "a"))
-			extra[c.J] = append(extra[c.J], ownedPodDoc("own-bbb", "b"))
+			// the deviating pod (label b) at one position, the agreeing pods (label a) at the other
+			devPos, sibPos := c.J, c.I
+			if c.DevFirst {
+				devPos, sibPos = c.I, c.J
+			}
+			extra[sibPos] = append(extra[sibPos], ownedPodDoc("own-aaa", "a"))
+			for k := 0; k < c.Sib; k++ {
+				extra[sibPos] = append(extra[sibPos], ownedPodDoc(fmt.Sprintf("own-aa%d", k), "a"))
+			}
+			extra[devPos] = append(extra[devPos], ownedPodDoc("own-bbb", "b"))
 			names = []string{"ns1/own"}
 		}
 	}
